@@ -336,7 +336,12 @@ func VerifC01_ManagementFailure() {
 	resetModuleSystem()
 	rt.NoTimers()
 	rt.SchedYieldOnly(true)
-	shape := rt.Choice("shape", 6)
+	nshapes := 4
+	if rt.Thorough() {
+		nshapes = 6
+	}
+	// (quick: chain, fan-in, diamond-ish and the two-plus-one shape)
+	shape := []int{2, 1, 4, 5, 0, 3}[rt.Choice("shape", nshapes)]
 	deps := dagShapes[shape]
 	lcFaults = 0
 	mods := buildDAG(shape)
